@@ -49,6 +49,7 @@ type Profile struct {
 	CharAlt    int  // percentage of choices built from single-character literals and small classes over a shared alphabet
 	ThrowIdiom int  // percentage of rules built as labelled-failure idioms (guarded items in sequence / nested)
 	ScanPct    int  // percentage of grammars wrapped in a scanning start rule S <- (v:R0 w:. {..} / .)*
+	InitPct    int  // percentage of cases (on templates with a state store) run with InitState options
 	JoinWords  int  // percentage of literals (and classes) spelled like the separators of the expected list: ", "  " or "
 	NotShare   int  // percentage of choices of the form !R x / R y (or R y / !R x): one rule evaluated at one offset inside and outside a negative predicate
 }
@@ -1115,6 +1116,17 @@ func GenCases(p *Profile, seed int64, idx int) []*Case {
 		}
 		c := &Case{ID: fmt.Sprintf("%s-%d-%d/%d", p.Name, seed, idx, i), Tmpl: t, Opts: o, Rules: rules, Blocks: blocks, WF: wf}
 		c.Input = g.genInput(rules, rmap, o.Entry)
+		if p.InitPct > 0 && t.HasState() && p.State && g.pct(p.InitPct) {
+			// InitState options: a Cloner cell (which state blocks then mutate in place) and / or a plain value
+			for _, k := range stateKeys {
+				switch g.r.Intn(3) {
+				case 0:
+					c.Init = append(c.Init, InitKV{Key: k, Cell: true, Items: []int{7 + g.r.Intn(3)}})
+				case 1:
+					c.Init = append(c.Init, InitKV{Key: k, Imm: 1 + g.r.Intn(4)})
+				}
+			}
+		}
 		cases = append(cases, c)
 	}
 	return cases
